@@ -81,7 +81,7 @@ def judge_parse(frame, mode, validate, bf):
     import pyubx2
 
     try:
-        m = pyubx2.UBXReader.parse(frame, msgmode=mode, validate=validate, parsebitfield=bf)
+        m = C.uparse(frame, mode, validate, bf)
     except C.ubx_errors():
         return "rejected", []
     except Exception as err:  # noqa
@@ -112,7 +112,7 @@ def judge_stream(data, opts, pipe=False):
     ts = S.pipe_stream(data) if pipe else S.TrackingStream(data)
     errs = []
     handler = errs.append if (opts.get("quitonerror") == 1 and opts.get("handler", True)) else None
-    logging.disable(logging.CRITICAL)
+    core.log_off()
     try:
         try:
             items, exc = S.read_all(ts, opts, handler)
@@ -126,7 +126,7 @@ def judge_stream(data, opts, pipe=False):
         return [(f"{PROP}|read|{type(exc).__name__}|{where(exc)}",
                  f"read() raised {exc!r} with {S.opts_label(opts)} on stream {data[:60].hex()}"[:320])]
     finally:
-        logging.disable(logging.NOTSET)
+        core.log_on()
 
 
 def check(case) -> core.Out:
@@ -187,7 +187,7 @@ def check(case) -> core.Out:
         viol = []
         import logging
 
-        logging.disable(logging.CRITICAL)
+        core.log_off()
         try:
             try:
                 items, exc = S.read_all(sock, dict(opts, bufsize=case["bufsize"]),
@@ -201,7 +201,7 @@ def check(case) -> core.Out:
                                                     f"{data[:40].hex()} chunks {case['chunks'][:8]} end {case['end']} "
                                                     f"bufsize {case['bufsize']}"))
         finally:
-            logging.disable(logging.NOTSET)
+            core.log_on()
             sock.close()
         out = core.Out(viol=viol, classes=["socket", f"end={case['end']}"],
                        dig=core.digest((data, case["chunks"], case["end"], case["bufsize"], sorted(opts.items()))))
@@ -279,7 +279,7 @@ def run_shard(spec, ctx, acc):
             for ec in c01.edge_cases(targets[ti], tier, ctx["seed"]):
                 case = {"kind": "frame", "frame": codec.ubx_frame(ec["clsid"][0:1], ec["clsid"][1:2], ec["payload"]),
                         "mode": ec["mode"], "validate": 1, "bf": ec["bf"]}
-                o = check(case)
+                o = core.checked(check, case)
                 o.classes = list(o.classes) + ["edge-payload"]
                 if core.handle(acc, o, case, known) and len(acc.violations) >= core.MAX_VIOL_PER_SHARD:
                     break
@@ -324,7 +324,7 @@ def run_shard(spec, ctx, acc):
                     case = {"kind": "stream", "data": data, "has_rejected": j in (3, 5) or j >= 6, "pipe": False,
                             "opts": {"msgmode": 0, "validate": 1, "protfilter": pf, "parsing": True, "quitonerror": qe,
                                      "parsebitfield": 1, "handler": True}}
-                    o = check(case)
+                    o = core.checked(check, case)
                     o.classes = list(o.classes) + ["deep-run"]
                     o.sample = {"stream": data[:24], "len": len(data), "repeats": 1200, "opts": case["opts"]}
                     core.handle(acc, o, case, known)
@@ -370,7 +370,7 @@ def run_shard(spec, ctx, acc):
                 for mode in modes:
                     case = {"kind": "frame", "frame": codec.ubx_frame(clsid[0:1], clsid[1:2], ref + tail),
                             "mode": mode, "validate": 1, "bf": 1}
-                    o = check(case)
+                    o = core.checked(check, case)
                     o.classes = list(o.classes) + ["refers-to-message"]
                     core.handle(acc, o, case, known)
     # very long inputs (length fields cannot express them)
@@ -378,7 +378,7 @@ def run_shard(spec, ctx, acc):
         for validate in (1, 0):
             case = {"kind": "frame", "frame": b"\xb5\x62\x01\x07" + bytes(n - 4), "mode": 0,
                     "validate": validate, "bf": 1}
-            core.handle(acc, check(case), case, known)
+            core.handle(acc, core.checked(check, case), case, known)
 
 
 def run_atheris(spec, ctx, acc):
